@@ -144,3 +144,201 @@ Section Nonce.
     exists frs. split; [exact Hcat|]. exact (chain_aead _ _ _ _ _ Hch key fixed s0 Ec Em Hseq Hb).
   Qed.
 End Nonce.
+
+(* ================================================================================================================
+   Part 11 (round 6): the explicit IVs of the CBC suite over a whole history of Write calls.  writeRecordLocked
+   reads one block of config.rand() per record into the explicit IV field; so over ANY history of Write calls on
+   one connection the explicit IVs on the wire are, in order, the consecutive blocks of the stream that the sender
+   consumed - record j carries block j and nothing else - hence pairwise distinct whenever those blocks are.
+   (Whole-history form of cbc_iv_from_stream; sibling of gcm_nonces_never_repeat.) *)
+
+(* the first n blocks of bs bytes of a byte stream *)
+Fixpoint stream_blocks (bs n : nat) (l : list N) : list (list N) :=
+  match n with O => [] | S n' => firstn bs l :: stream_blocks bs n' (skipn bs l) end.
+
+Lemma stream_blocks_concat bs xs rest :
+  Forall (fun b => length b = bs) xs -> stream_blocks bs (length xs) (concat xs ++ rest) = xs.
+Proof.
+  induction 1 as [|x xs Hx _ IH]; [reflexivity|].
+  cbn [length stream_blocks concat]. rewrite <- app_assoc.
+  rewrite firstn_app_exact by (symmetry; exact Hx). rewrite skipn_app_exact by (symmetry; exact Hx).
+  rewrite IH. reflexivity.
+Qed.
+
+Lemma skipn_skipn_add {A} a : forall b (l : list A), skipn a (skipn b l) = skipn (b + a) l.
+Proof.
+  induction b as [|b IH]; intros l; [reflexivity|].
+  destruct l as [|x l]; [cbn [skipn Nat.add]; apply skipn_nil|]. cbn [skipn Nat.add]. apply IH.
+Qed.
+
+Lemma stream_blocks_nth bs : forall n l j b, nth_error (stream_blocks bs n l) j = Some b ->
+  b = firstn bs (skipn (j * bs) l).
+Proof.
+  induction n as [|n IH]; intros l j b H; [destruct j; discriminate|].
+  destruct j as [|j]; cbn [stream_blocks nth_error] in H.
+  - injection H as <-. reflexivity.
+  - rewrite (IH _ _ _ H). rewrite skipn_skipn_add. reflexivity.
+Qed.
+
+Section IVHistory.
+  Variable P : prims.
+  Hypothesis Hok : prims_ok P.
+
+  (* the explicit IV field of a CBC record on the wire: the block behind the header *)
+  Definition explicit_iv (rec_ : list N) : list N := firstn (p_bs P) (skipn 5 rec_).
+
+  (* a sender half with the CBC suite of a protocol version with explicit IVs *)
+  Definition cbc_sender (c : connOut) : Prop :=
+    kind (hc_cipher (o_hc c)) = 2 /\ explicit_iv_version (hc_version (o_hc c)) = true.
+
+  (* encrypt leaves the explicit IV it was handed in the clear behind the header *)
+  Lemma encrypt_cbc_iv_clear hc hdr eiv frag hc' rec_ :
+    kind (hc_cipher hc) = 2 -> length hdr = 5 -> length eiv = p_bs P ->
+    encrypt P hc (hdr ++ eiv ++ frag) (p_bs P) = Ok (hc', rec_) ->
+    firstn (p_bs P) (skipn 5 rec_) = eiv.
+  Proof.
+    intros Hk Hh He H. unfold encrypt in H.
+    destruct (length (hdr ++ eiv ++ frag) <? recordHeaderLen + p_bs P); [discriminate|].
+    set (data1 := match hc_mac hc with Some mk => _ | None => _ end) in H.
+    assert (Hd1 : exists tl, data1 = hdr ++ eiv ++ tl).
+    { unfold data1. destruct (hc_mac hc); [|eexists; reflexivity].
+      eexists. rewrite <- !app_assoc. reflexivity. }
+    destruct Hd1 as [tl Hd1]. clearbody data1. subst data1.
+    destruct (hc_cipher hc) as [|key fixed|key iv]; try discriminate Hk.
+    assert (Hf : firstn (recordHeaderLen + p_bs P) (hdr ++ eiv ++ tl) = hdr ++ eiv).
+    { rewrite app_assoc. apply firstn_app_exact. rewrite app_length. unfold recordHeaderLen. lia. }
+    rewrite Hf in H.
+    destruct ((0 <? p_bs P) && negb (p_bs P =? p_bs P)); [discriminate|].
+    destruct (padToBlockSize _ _) as [prefix finalBlock].
+    destruct (cbc_encrypt_blocks _ _ _ prefix) as [[c1 iv2]| | |]; cbn [obind] in H; try discriminate.
+    destruct (cbc_encrypt_blocks _ _ _ finalBlock) as [[c2 iv3]| | |]; cbn [obind] in H; try discriminate.
+    destruct (incSeq _) as [hc1| | |]; cbn [obind] in H; try discriminate.
+    apply Ok_inj in H. apply pair_equal_spec in H. destruct H as [_ H]. subst rec_.
+    change 5 with recordHeaderLen at 1.
+    assert (H5 : firstn recordHeaderLen ((hdr ++ eiv) ++ c1 ++ c2) = hdr).
+    { rewrite <- app_assoc. apply firstn_app_exact. symmetry; exact Hh. }
+    assert (S5 : skipn recordHeaderLen ((hdr ++ eiv) ++ c1 ++ c2) = eiv ++ c1 ++ c2).
+    { rewrite <- app_assoc. apply skipn_app_exact. symmetry; exact Hh. }
+    rewrite H5, S5.
+    rewrite skipn_app_exact by (symmetry; unfold recordHeaderLen; apply put_len_length; exact Hh).
+    apply firstn_app_exact. symmetry; exact He.
+  Qed.
+
+  (* what a stretch of the sender's run did: still a CBC sender, and the explicit IVs of the records written are,
+     in order, exactly the bytes consumed from config.rand(), one block per record *)
+  Definition iv_run (c c' : connOut) (recs : list (list N)) : Prop :=
+    cbc_sender c' /\ concat (map explicit_iv recs) ++ o_rand c' = o_rand c /\
+    Forall (fun r => length (explicit_iv r) = p_bs P) recs.
+
+  Lemma iv_run_nil c : cbc_sender c -> iv_run c c [].
+  Proof. intros H. split; [exact H|]. split; [reflexivity|constructor]. Qed.
+
+  Lemma iv_run_app c c1 c2 recs1 recs2 : iv_run c c1 recs1 -> iv_run c1 c2 recs2 -> iv_run c c2 (recs1 ++ recs2).
+  Proof.
+    intros [_ [E1 F1]] [S2 [E2 F2]]. split; [exact S2|]. split.
+    - rewrite map_app, concat_app, <- app_assoc, E2. exact E1.
+    - apply Forall_app. split; assumption.
+  Qed.
+
+  Lemma iv_run_set_err c c' recs err : iv_run c c' recs -> iv_run c (out_set_err c' err) recs.
+  Proof. intros H. destruct err; [|exact H]. exact H. Qed.
+
+  (* one pass of the loop of writeRecordLocked *)
+  Lemma writeRecord_step_iv c typ data c1 rec_ m :
+    cbc_sender c -> writeRecord_step P c typ data = Ok (Some (c1, rec_, m)) -> iv_run c c1 [rec_].
+  Proof.
+    intros [Hk Hv] H. unfold writeRecord_step in H.
+    destruct (hc_cipher (o_hc c)) as [|key fixed|k iv] eqn:Ec; try discriminate Hk.
+    rewrite Hv in H. destruct (ok_bs P Hok) as [Hbs1 Hbs2].
+    assert (Hpos : 0 <? p_bs P = true) by (apply Nat.ltb_lt; lia). rewrite Hpos in H.
+    destruct (maxPayloadSizeForWrite P c typ (p_bs P)) as [maxPayload pkts].
+    destruct (length (o_rand c) <? p_bs P) eqn:Er; [discriminate|]. apply Nat.ltb_ge in Er.
+    destruct (encrypt P (o_hc c) _ (p_bs P)) as [[hc' r]| | |] eqn:Ee; cbn [obind] in H; try discriminate.
+    apply Ok_inj in H. injection H as <- <- <-.
+    assert (Hl : length (firstn (p_bs P) (o_rand c)) = p_bs P) by (rewrite firstn_length; lia).
+    assert (Hiv : explicit_iv r = firstn (p_bs P) (o_rand c)).
+    { unfold explicit_iv.
+      match type of Ee with
+      | encrypt _ _ (?h ++ ?e ++ ?f) _ = _ =>
+        apply (encrypt_cbc_iv_clear (o_hc c) h e f hc' r); [rewrite Ec; reflexivity| |exact Hl|exact Ee]
+      end.
+      rewrite app_length, len_bytes_length. reflexivity. }
+    destruct (encrypt_fields P _ _ _ _ _ Ee) as [_ [Hver [_ [Hkind _]]]].
+    split; [|split].
+    - split; cbn [out_with o_hc]; [rewrite Hkind, Ec; reflexivity|rewrite Hver; exact Hv].
+    - cbn [map concat out_with o_rand]. rewrite app_nil_r, Hiv. apply firstn_skipn.
+    - constructor; [rewrite Hiv; exact Hl|constructor].
+  Qed.
+
+  Lemma writeRecordLocked_iv typ fuel : forall c data c' recs n err,
+    cbc_sender c -> writeRecordLocked P fuel c typ data = Ok (c', recs, n, err) -> iv_run c c' recs.
+  Proof.
+    induction fuel as [|fuel IH]; intros c data c' recs n err Hs H; destruct data as [|d0 data];
+      cbn [writeRecordLocked] in H; try discriminate;
+      try (injection H as <- <- <- <-; apply iv_run_nil; exact Hs).
+    destruct (writeRecord_step P c typ (d0 :: data)) as [[[[c1 r] m]|]| | |] eqn:Es; cbn [obind] in H; try discriminate.
+    - destruct (writeRecordLocked P fuel c1 typ (skipn m (d0 :: data))) as [[[[c2 recs2] n2] err2]| | |] eqn:E2;
+        cbn [obind] in H; try discriminate.
+      injection H as <- <- <- <-.
+      pose proof (writeRecord_step_iv _ _ _ _ _ _ Hs Es) as H1.
+      apply (iv_run_app _ _ _ [r] recs2 H1). eapply IH; [exact (proj1 H1)|exact E2].
+    - injection H as <- <- <- <-. apply iv_run_nil; exact Hs.
+  Qed.
+
+  Lemma conn_Write_iv fuel c b c' recs n err :
+    cbc_sender c -> conn_Write P fuel c b = Ok (c', recs, n, err) -> iv_run c c' recs.
+  Proof.
+    intros Hs H. unfold conn_Write in H.
+    destruct (hc_err (o_hc c)); [injection H as <- <- <- <-; apply iv_run_nil; exact Hs|].
+    destruct (o_closeNotifySent c); [injection H as <- <- <- <-; apply iv_run_nil; exact Hs|].
+    destruct ((1 <? length b) && (o_vers c <=? VersionTLS10)%N && is_block_mode (hc_cipher (o_hc c))).
+    - destruct (writeRecordLocked P fuel c _ (firstn 1 b)) as [[[[c1 recs1] n1] err1]| | |] eqn:E1;
+        cbn [obind] in H; try discriminate.
+      pose proof (writeRecordLocked_iv _ _ _ _ _ _ _ _ Hs E1) as H1.
+      destruct err1.
+      + injection H as <- <- <- <-. change (iv_run c (out_set_err c1 true) recs1). apply iv_run_set_err. exact H1.
+      + destruct (writeRecordLocked P fuel c1 _ (skipn 1 b)) as [[[[c2 recs2] n2] err2]| | |] eqn:E2;
+          cbn [obind] in H; try discriminate.
+        injection H as <- <- <- <-. change (iv_run c (out_set_err c2 err2) (recs1 ++ recs2)).
+        apply iv_run_set_err. apply (iv_run_app _ _ _ _ _ H1).
+        eapply writeRecordLocked_iv; [exact (proj1 H1)|exact E2].
+    - destruct (writeRecordLocked P fuel c _ b) as [[[[c2 recs2] n2] err2]| | |] eqn:E2; cbn [obind] in H; try discriminate.
+      injection H as <- <- <- <-. change (iv_run c (out_set_err c2 err2) recs2).
+      apply iv_run_set_err. eapply writeRecordLocked_iv; [exact Hs|exact E2].
+  Qed.
+
+  Lemma write_calls_iv fuel : forall writes c c' recs err,
+    cbc_sender c -> write_calls P fuel c writes = Ok (c', recs, err) -> iv_run c c' recs.
+  Proof.
+    induction writes as [|b rest IH]; intros c c' recs err Hs H; cbn [write_calls] in H.
+    - injection H as <- <- <-. apply iv_run_nil; exact Hs.
+    - destruct (conn_Write P fuel c b) as [[[[c1 recs1] n1] err1]| | |] eqn:E1; cbn [obind] in H; try discriminate.
+      pose proof (conn_Write_iv _ _ _ _ _ _ _ Hs E1) as H1.
+      destruct err1; [injection H as <- <- <-; exact H1|].
+      destruct (write_calls P fuel c1 rest) as [[[c2 recs2] err2]| | |] eqn:E2; cbn [obind] in H; try discriminate.
+      injection H as <- <- <-. apply (iv_run_app _ _ _ _ _ H1). eapply IH; [exact (proj1 H1)|exact E2].
+  Qed.
+
+  (* ---------- any history of Write calls of a CBC sender -------------------------------------------------------
+     (also one that ends in a failed Write): the explicit IVs of ALL records of the history, in order, are the
+     consecutive blocks of what config.rand() delivered - record j carries block j, every block is used for one
+     record only, nothing else of the stream is consumed; so the IVs of the history are pairwise distinct
+     whenever the blocks the entropy source delivered are. *)
+  Theorem cbc_ivs_fresh_over_history fuel cw writes cw' recs err :
+    cbc_sender cw -> write_calls P fuel cw writes = Ok (cw', recs, err) ->
+    concat (map explicit_iv recs) ++ o_rand cw' = o_rand cw /\
+    map explicit_iv recs = stream_blocks (p_bs P) (length recs) (o_rand cw) /\
+    (forall j r, nth_error recs j = Some r -> explicit_iv r = firstn (p_bs P) (skipn (j * p_bs P) (o_rand cw))) /\
+    (NoDup (stream_blocks (p_bs P) (length recs) (o_rand cw)) -> NoDup (map explicit_iv recs)).
+  Proof.
+    intros Hs Hw. destruct (write_calls_iv _ _ _ _ _ _ Hs Hw) as [_ [E F]].
+    assert (Hb : map explicit_iv recs = stream_blocks (p_bs P) (length recs) (o_rand cw)).
+    { rewrite <- E. rewrite <- (map_length explicit_iv recs). symmetry. apply stream_blocks_concat.
+      apply Forall_forall. intros x Hx. apply in_map_iff in Hx. destruct Hx as [r [<- Hr]].
+      rewrite Forall_forall in F. apply F. exact Hr. }
+    split; [exact E|]. split; [exact Hb|]. split.
+    - intros j r Hj. pose proof (map_nth_error explicit_iv _ _ Hj) as Hn. rewrite Hb in Hn.
+      apply (stream_blocks_nth _ _ _ _ _ Hn).
+    - intros Hnd. rewrite Hb. exact Hnd.
+  Qed.
+End IVHistory.
